@@ -3,9 +3,9 @@ From Verif Require Import Base TxPhase.
 From Coq Require Import Sorting.Sorted.
 Open Scope N_scope.
 
-Ltac sx := cbn [st_last st_engine st_intr st_dintr st_allow st_reqlen st_resplen st_conn st_uri
-                st_reqhdr st_resphdr st_trace set_last set_engine set_intr set_dintr set_allow
-                set_reqlen set_resplen set_flags add_event fst snd] in *.
+Ltac sx := cbn [st_last st_engine st_intr st_dintr st_allow st_skip st_skipafter st_reqlen st_resplen
+                st_conn st_uri st_reqhdr st_resphdr st_trace set_last set_engine set_intr set_dintr
+                set_allow set_flow set_reqlen set_resplen set_flags add_event fst snd] in *.
 
 (* ---------------------------------------------------------------------------------- *)
 (* helpers on histories                                                                *)
@@ -155,7 +155,7 @@ Proof.
   match goal with |- context [match r_chain r with Some c => tp_holds ?s1 c | None => true end] =>
     destruct (match r_chain r with Some c => tp_holds s1 c | None => true end) end.
   2,4: sx; cbn [tp_ev_intr]; destruct (st_intr s), (st_dintr s); repeat split; reflexivity.
-  all: unfold tp_exec_dact, tp_allow, tp_interrupt; sx; cbn [tp_ev_intr].
+  all: unfold tp_exec_flow, tp_exec_dact, tp_allow, tp_interrupt; sx; cbn [tp_ev_intr].
   - destruct (r_act r) as [[]|] eqn:Ea; unfold tp_intr_of; rewrite ?Ea; sx;
       destruct m; sx; destruct (st_intr s) eqn:Ei, (st_dintr s) eqn:Ed; sx; rewrite ?Ei, ?Ed;
       repeat split; reflexivity.
@@ -187,24 +187,43 @@ Proof. apply eval_rule_core. Qed.
 (* RuleGroup.Eval                                                                      *)
 (* ---------------------------------------------------------------------------------- *)
 
-Lemma inv_eval_loop p rs : forall s,
-  Inv s -> Inv (tp_eval_loop p rs s) /\ st_last (tp_eval_loop p rs s) = st_last s.
+(* a generic preservation lemma for the RulesLoop: P may depend on the phase being evaluated *)
+Lemma eval_loop_pres (P : tp_state -> Prop) p rs :
+  (forall s k m, P s -> P (set_flow s k m)) ->
+  (forall s a, P s -> P (set_allow s a)) ->
+  (forall r s, In r rs -> r_mark r = None -> r_phase r = 0 \/ r_phase r = p ->
+               st_intr s = None \/ p = 5 -> P s -> P (tp_eval_rule p r s)) ->
+  forall s, P s -> P (tp_eval_loop p rs s).
 Proof.
-  induction rs as [|r rs IH]; intros s H; cbn [tp_eval_loop]; [split; [exact H | reflexivity]|].
-  destruct (is_some (st_intr s) && negb (p =? 5)) eqn:G; [split; [exact H | reflexivity]|].
-  destruct (negb (r_phase r =? p)); [apply IH, H|].
+  intros Hflow Hallow. induction rs as [|r rs IH]; intros Hr s H; cbn [tp_eval_loop]; [exact H|].
+  assert (IH' : forall s, P s -> P (tp_eval_loop p rs s)).
+  { apply IH. intros r0 s0 Hin. apply Hr. right. exact Hin. }
+  destruct (is_some (st_intr s) && negb (p =? 5)) eqn:G; [exact H|].
+  destruct ((r_phase r =? 0) || (r_phase r =? p)) eqn:Eph; cbn [negb]; [|apply IH', H].
+  destruct (st_skipafter s).
+  { destruct (tp_mark_eqb (r_mark r) n); apply IH'; [apply Hflow|]; exact H. }
+  destruct (0 <? st_skip s); [apply IH', Hflow, H|].
   assert (C : st_intr s = None \/ p = 5).
   { apply andb_false_iff in G as [G|G].
     - left. destruct (st_intr s); [discriminate | reflexivity].
     - right. apply negb_false_iff, N.eqb_eq in G. exact G. }
-  assert (Go : Inv (tp_eval_loop p rs (tp_eval_rule p r s)) /\
-               st_last (tp_eval_loop p rs (tp_eval_rule p r s)) = st_last s).
-  { destruct (IH (tp_eval_rule p r s) (inv_eval_rule p r s H C)) as [A B].
-    split; [exact A | rewrite B; apply eval_rule_last]. }
-  destruct (st_allow s) as [[]|]; try exact Go; try (split; [exact H | reflexivity]).
-  - destruct (p =? 1); [split; [exact H | reflexivity]|].
-    destruct (p =? 2); [split; [exact H | reflexivity] | exact Go].
-  - destruct (p =? 5); [exact Go | split; [exact H | reflexivity]].
+  assert (Go : P (tp_eval_loop p rs (if is_some (r_mark r) then s else tp_eval_rule p r s))).
+  { apply IH'. destruct (r_mark r) eqn:Em; cbn [is_some]; [exact H|].
+    apply Hr; try assumption; [left; reflexivity|].
+    apply orb_true_iff in Eph as [E|E]; apply N.eqb_eq in E; auto. }
+  destruct (st_allow s) as [[]|]; try exact Go; try exact H.
+  - destruct (p =? 1); [exact H|]. destruct (p =? 2); [apply Hallow, H | exact Go].
+  - destruct (p =? 5); [exact Go | exact H].
+Qed.
+
+Lemma inv_eval_loop p rs : forall s,
+  Inv s -> Inv (tp_eval_loop p rs s) /\ st_last (tp_eval_loop p rs s) = st_last s.
+Proof.
+  intros s H.
+  apply (eval_loop_pres (fun s' => Inv s' /\ st_last s' = st_last s) p rs); try (split; [exact H | reflexivity]).
+  - intros s0 k m H0. exact H0.
+  - intros s0 a H0. exact H0.
+  - intros r s0 _ _ _ C [H0 L0]. split; [apply inv_eval_rule; assumption | rewrite eval_rule_last; exact L0].
 Qed.
 
 Lemma inv_eval_phase c p s :
@@ -218,6 +237,16 @@ Proof.
   destruct (inv_eval_loop p (c_rules c) _ H1) as [H2 _].
   destruct (st_allow (tp_eval_loop p (c_rules c) (add_event (set_last s p) (EvPhase p)))) as [[]|];
     exact H2.
+Qed.
+
+(* what RuleGroup.Eval leaves behind: flow state at rest, no pending allow:phase *)
+Lemma eval_phase_flow c p s :
+  st_skip (tp_eval_phase c p s) = 0 /\ st_skipafter (tp_eval_phase c p s) = None /\
+  st_allow (tp_eval_phase c p s) <> Some SPhase.
+Proof.
+  unfold tp_eval_phase. sx. repeat split.
+  destruct (st_allow (tp_eval_loop p (c_rules c) (add_event (set_last s p) (EvPhase p)))) as [[]|] eqn:E;
+    sx; rewrite ?E; discriminate.
 Qed.
 
 Lemma inv_limit_intr s st : Inv s -> Inv (tp_limit_intr s st).
@@ -360,13 +389,8 @@ Qed.
 
 Lemma final_eval_loop p rs : forall s, P s -> P (tp_eval_loop p rs s).
 Proof.
-  induction rs as [|r rs IH]; intros s H; cbn [tp_eval_loop]; [exact H|].
-  destruct (is_some (st_intr s) && negb (p =? 5)); [exact H|].
-  destruct (negb (r_phase r =? p)); [apply IH, H|].
-  pose proof (IH _ (final_eval_rule p r s H)) as Go.
-  destruct (st_allow s) as [[]|]; try exact Go; try exact H.
-  - destruct (p =? 1); [exact H|]. destruct (p =? 2); [exact H | exact Go].
-  - destruct (p =? 5); [exact Go | exact H].
+  apply eval_loop_pres; try (intros; assumption).
+  intros r s _ _ _ _ H. apply final_eval_rule, H.
 Qed.
 
 Lemma final_eval_phase c p s : P s -> P (tp_eval_phase c p s).
@@ -545,7 +569,7 @@ Proof.
   match goal with |- context [match r_chain r with Some c => tp_holds ?s1 c | None => true end] =>
     destruct (match r_chain r with Some c => tp_holds s1 c | None => true end) end; sx;
   try (split; [congruence | exact Hi]);
-  unfold tp_exec_dact, tp_allow, tp_interrupt; sx;
+  unfold tp_exec_flow, tp_exec_dact, tp_allow, tp_interrupt; sx;
   destruct (r_act r) as [[]|] eqn:Ea; unfold tp_intr_of; rewrite ?Ea; sx;
   destruct (st_engine s) eqn:Ee; try congruence; sx;
   destruct (st_dintr s) eqn:Ed; sx; rewrite ?Ee; split; congruence.
@@ -554,14 +578,9 @@ Qed.
 Lemma quiet_eval_loop p rs : forallb (fun r => match r_ctl r with Some MOn => false | _ => true end) rs = true ->
   forall s, Q s -> Q (tp_eval_loop p rs s).
 Proof.
-  induction rs as [|r rs IH]; intros Hrs s H; cbn [tp_eval_loop]; [exact H|].
-  cbn [forallb] in Hrs. apply andb_true_iff in Hrs as [Hr Hrs].
-  destruct (is_some (st_intr s) && negb (p =? 5)); [exact H|].
-  destruct (negb (r_phase r =? p)); [apply IH; assumption|].
-  pose proof (IH Hrs _ (quiet_eval_rule p r s Hr H)) as Go.
-  destruct (st_allow s) as [[]|]; try exact Go; try exact H.
-  - destruct (p =? 1); [exact H|]. destruct (p =? 2); [exact H | exact Go].
-  - destruct (p =? 5); [exact Go | exact H].
+  intro Hrs. apply eval_loop_pres; try (intros; assumption).
+  intros r s Hin _ _ _ H. apply quiet_eval_rule; [|exact H].
+  rewrite forallb_forall in Hrs. apply Hrs, Hin.
 Qed.
 
 Lemma quiet_eval_phase p s : Q s -> Q (tp_eval_phase c p s).
@@ -687,7 +706,7 @@ Qed.
 (* F12: a body-limit Reject records and returns an interruption although ctl:ruleEngine switched
    the transaction to DetectionOnly *)
 Definition f12_waf : tp_waf :=
-  mkWaf MOn [] [mkRaw 1 1 CTrue None (Some MDet) [DPass] None] true 8%Z LReject true 8%Z LPartial.
+  mkWaf MOn [] [mkRaw None 1 1 CTrue None [ICtl MDet; IDis DPass]] true 8%Z LReject true 8%Z LPartial.
 
 Lemma detection_only_refuted_holds :
   exists w ks k,
@@ -734,9 +753,11 @@ Definition tp_plain_stat (s : tp_state) (r : tp_rule) : tp_rstat :=
     if match r_chain r with Some c => tp_holds s c | None => true end then RFired MOn else RStarterOnly
   else RNoMatch.
 
+(* no ctl:ruleEngine, no allow, no skip / skipAfter, not a marker *)
 Definition tp_plain_rule (r : tp_rule) : bool :=
   match r_ctl r with Some _ => false | None => true end &&
-  match r_act r with Some (DAllow _) => false | _ => true end.
+  match r_act r with Some (DAllow _) => false | _ => true end &&
+  (r_skip r =? 0) && negb (is_some (r_skipafter r)) && negb (is_some (r_mark r)) && negb (r_phase r =? 0).
 
 Definition tp_plain (c : tp_cfg) : bool := forallb tp_plain_rule (c_rules c).
 
@@ -776,18 +797,23 @@ Lemma eval_rule_plain p r s :
   let s1 := tp_eval_rule p r s in
   same_flags s s1 /\ st_engine s1 = MOn /\ st_allow s1 = None /\
   st_intr s1 = or_else (st_intr s) (if tp_fires s r then tp_intr_of r else None) /\
-  st_trace s1 = st_trace s ++ [EvRule p r (tp_plain_stat s r)].
+  st_trace s1 = st_trace s ++ [EvRule p r (tp_plain_stat s r)] /\
+  st_skip s1 = st_skip s /\ st_skipafter s1 = st_skipafter s.
 Proof.
-  intros Hp He Ha. unfold tp_plain_rule in Hp. apply andb_true_iff in Hp as [Hc Hact].
+  intros Hp He Ha. unfold tp_plain_rule in Hp.
+  apply andb_true_iff in Hp as [Hp _]. apply andb_true_iff in Hp as [Hp _].
+  apply andb_true_iff in Hp as [Hp Hsa]. apply andb_true_iff in Hp as [Hp Hsk].
+  apply andb_true_iff in Hp as [Hc Hact]. apply N.eqb_eq in Hsk.
   unfold tp_eval_rule, tp_fires, tp_plain_stat, same_flags.
   destruct (r_ctl r); [discriminate|].
   destruct (tp_holds s (r_cond r)); cbn [andb].
   2:{ sx. destruct (st_intr s); auto 10. }
   destruct (match r_chain r with Some c => tp_holds s c | None => true end).
   2:{ sx. destruct (st_intr s); auto 10. }
-  unfold tp_exec_dact, tp_allow, tp_interrupt. rewrite He.
+  unfold tp_exec_flow, tp_exec_dact, tp_allow, tp_interrupt. rewrite He, Hsk.
+  destruct (r_skipafter r); [discriminate|]. cbn [N.ltb N.compare].
   destruct (r_act r) as [[]|] eqn:Ea; try discriminate; unfold tp_intr_of; rewrite ?Ea; sx;
-    rewrite ?He; destruct (st_intr s) eqn:Ei; sx; rewrite ?He, ?Ei; auto 10.
+    rewrite ?He; destruct (st_intr s) eqn:Ei; sx; rewrite ?He, ?Ei; auto 12.
 Qed.
 
 Lemma eval_loop_stop p rs s :
@@ -798,25 +824,30 @@ Lemma spec_evaluated_stop s p rs : negb (p =? 5) = true -> tp_spec_evaluated s p
 Proof. intro H. destruct rs; cbn [tp_spec_evaluated andb]; [reflexivity | rewrite H; reflexivity]. Qed.
 
 Lemma eval_loop_plain p rs : forallb tp_plain_rule rs = true ->
-  forall s, st_engine s = MOn -> st_allow s = None ->
+  forall s, st_engine s = MOn -> st_allow s = None -> st_skip s = 0 -> st_skipafter s = None ->
   let s' := tp_eval_loop p rs s in
   st_intr s' = or_else (st_intr s) (tp_spec_first s p rs) /\
   st_trace s' = st_trace s ++
      map (fun r => EvRule p r (tp_plain_stat s r)) (tp_spec_evaluated s p (is_some (st_intr s)) rs) /\
   st_engine s' = MOn /\ st_allow s' = None.
 Proof.
-  induction rs as [|r rs IH]; intros Hpl s He Ha; cbn zeta.
+  induction rs as [|r rs IH]; intros Hpl s He Ha Hk Hm; cbn zeta.
   { cbn. rewrite app_nil_r. destruct (st_intr s); auto. }
   cbn [forallb] in Hpl. apply andb_true_iff in Hpl as [Hr Hrs].
   cbn [tp_eval_loop tp_spec_first tp_spec_evaluated].
   destruct (is_some (st_intr s) && negb (p =? 5)) eqn:G.
   { cbn [map]. rewrite app_nil_r. apply andb_true_iff in G as [G _].
     destruct (st_intr s); [cbn; auto | discriminate]. }
+  assert (Hm0 : r_mark r = None /\ (r_phase r =? 0) = false).
+  { unfold tp_plain_rule in Hr. apply andb_true_iff in Hr as [Hr1 Hr2]. apply andb_true_iff in Hr1 as [_ Hr1].
+    split; [destruct (r_mark r); [discriminate | reflexivity] | apply negb_true_iff, Hr2]. }
+  destruct Hm0 as [Hmk Hp0]. rewrite Hp0. cbn [orb].
   destruct (r_phase r =? p) eqn:Eph; cbn [negb andb].
-  2:{ apply (IH Hrs s He Ha). }
-  rewrite Ha.
-  destruct (eval_rule_plain p r s Hr He Ha) as (Hf & He1 & Ha1 & Hi1 & Ht1).
-  destruct (IH Hrs _ He1 Ha1) as (A & B & C & D). cbn zeta in *.
+  2:{ apply (IH Hrs s He Ha Hk Hm). }
+  rewrite Hm, Hk, Ha, Hmk. cbn [N.ltb N.compare is_some].
+  destruct (eval_rule_plain p r s Hr He Ha) as (Hf & He1 & Ha1 & Hi1 & Ht1 & Hk1 & Hm1).
+  rewrite Hk in Hk1. rewrite Hm in Hm1.
+  destruct (IH Hrs _ He1 Ha1 Hk1 Hm1) as (A & B & C & D). cbn zeta in *.
   rewrite A, B, Hi1, Ht1, C, D.
   rewrite (spec_first_same_flags s _ p rs Hf).
   rewrite (spec_evaluated_same_flags s _ p rs Hf).
@@ -832,15 +863,16 @@ Qed.
 
 Lemma phase_first_disruptive_holds c p s :
   tp_plain c = true -> st_engine s = MOn -> st_allow s = None -> st_intr s = None ->
+  st_skip s = 0 -> st_skipafter s = None ->
   let s' := tp_eval_phase c p s in
   st_intr s' = tp_spec_first s p (c_rules c) /\
   st_trace s' = st_trace s ++ EvPhase p ::
      map (fun r => EvRule p r (tp_plain_stat s r)) (tp_spec_evaluated s p false (c_rules c)).
 Proof.
-  intros Hpl He Ha Hi. cbn zeta. unfold tp_eval_phase.
+  intros Hpl He Ha Hi Hk Hm. cbn zeta. unfold tp_eval_phase.
   set (s0 := add_event (set_last s p) (EvPhase p)).
   assert (Hf : same_flags s s0) by (unfold same_flags, s0; sx; auto).
-  destruct (eval_loop_plain p (c_rules c) Hpl s0) as (A & B & C & D); [exact He | exact Ha |].
+  destruct (eval_loop_plain p (c_rules c) Hpl s0) as (A & B & C & D); [exact He | exact Ha | exact Hk | exact Hm |]. sx.
   cbn zeta in *. rewrite D. rewrite A, B.
   assert (I0 : st_intr s0 = None) by (unfold s0; sx; exact Hi).
   assert (T0 : st_trace s0 = st_trace s ++ [EvPhase p]) by (unfold s0; sx; reflexivity).
@@ -903,31 +935,159 @@ Lemma only_three_interrupt r :
   match r_act r with Some DDeny | Some DDrop | Some (DRedirect _) => False | _ => True end.
 Proof. unfold tp_intr_of. destruct (r_act r) as [[]|]; split; intro H; try exact I; try reflexivity; try discriminate; contradiction. Qed.
 
-Lemma last_dact_snoc l a : tp_last_dact (l ++ [a]) = Some a.
-Proof. unfold tp_last_dact. rewrite rev_app_distr. reflexivity. Qed.
+(* ---- parseActions / appendRuleAction: exactly one disruptive action survives, the last one ---- *)
 
-Lemma compile_keeps_own ds r a :
-  tp_last_dact (rr_dacts r) = Some a -> tp_is_block a = false -> r_act (tp_compile_rule ds r) = Some a.
+Definition dis_items (l : list tp_item) : list tp_item := filter tp_is_dis l.
+Definition nondis_items (l : list tp_item) : list tp_item := filter (fun a => negb (tp_is_dis a)) l.
+
+Lemma last_some_snoc {A B} (f : A -> option B) l : forall a acc,
+  tp_last_some f (l ++ [a]) acc = match f a with Some b => Some b | None => tp_last_some f l acc end.
 Proof.
-  intros H Hb. unfold tp_compile_rule. rewrite H.
-  destruct (tp_defaults_for ds (rr_phase r)); cbn; [rewrite Hb|]; reflexivity.
+  induction l as [|x l IH]; intros a acc; cbn [app tp_last_some]; [destruct (f a); reflexivity|].
+  apply IH.
 Qed.
 
-Lemma compile_block_inherits ds r d :
-  (tp_last_dact (rr_dacts r) = Some DBlock \/ tp_last_dact (rr_dacts r) = None) ->
-  tp_defaults_for ds (rr_phase r) = Some d ->
-  r_act (tp_compile_rule ds r) = tp_last_dact (df_dacts d) /\
-  r_status (tp_compile_rule ds r) =
-    match rr_status r with Some n => n | None => match df_status d with Some n => n | None => 0 end end.
+Lemma firstn_len_app {A} (pre l : list A) : firstn (length pre) (pre ++ l) = pre.
+Proof. induction pre as [|x pre IH]; cbn; [destruct l; reflexivity | rewrite IH; reflexivity]. Qed.
+
+Lemma skipn_len_app {A} (pre : list A) x post : skipn (S (length pre)) (pre ++ x :: post) = post.
+Proof. induction pre as [|y pre IH]; cbn; [reflexivity | exact IH]. Qed.
+
+Definition parse_inv (done : list tp_item) (st : list tp_item * option nat) : Prop :=
+  nondis_items (fst st) = nondis_items done /\
+  match snd st with
+  | None => dis_items (fst st) = [] /\ tp_last_dis done = None
+  | Some i => exists pre d post, fst st = pre ++ IDis d :: post /\ length pre = i /\
+                dis_items pre = [] /\ dis_items post = [] /\ tp_last_dis done = Some d
+  end.
+
+Lemma parse_inv_step done st a : parse_inv done st -> parse_inv (done ++ [a]) (tp_append_action st a).
 Proof.
-  intros H Hd. unfold tp_compile_rule. rewrite Hd. destruct H as [-> | ->]; cbn; split; reflexivity.
+  destruct st as [res idx]. unfold parse_inv, tp_append_action, tp_last_dis. cbn [fst snd].
+  intros [Hn Hd]. rewrite last_some_snoc. unfold nondis_items, dis_items in *.
+  destruct (tp_is_dis a) eqn:Ea.
+  - assert (exists d, a = IDis d) as [d ->] by (destruct a; try discriminate; eexists; reflexivity).
+    cbn [tp_dis_of]. destruct idx as [i|]; cbn [fst snd].
+    + destruct Hd as (pre & d0 & post & -> & Hl & Hp & Hq & _). subst i.
+      unfold tp_replace_nth. rewrite firstn_len_app, skipn_len_app. split.
+      * rewrite !filter_app in *. cbn [filter tp_is_dis negb] in *. rewrite app_nil_r. exact Hn.
+      * exists pre, d, post. auto.
+    + destruct Hd as [Hd _]. split.
+      * rewrite !filter_app. cbn [filter tp_is_dis negb]. rewrite !app_nil_r. exact Hn.
+      * exists res, d, []. auto.
+  - assert (Ef : tp_dis_of a = None) by (destruct a; try discriminate; reflexivity). rewrite Ef.
+    cbn [fst snd]. split.
+    + rewrite !filter_app, Hn. cbn [filter]. rewrite Ea. reflexivity.
+    + destruct idx as [i|].
+      * destruct Hd as (pre & d0 & post & -> & Hl & Hp & Hq & Hlast).
+        exists pre, d0, (post ++ [a]). rewrite <- app_assoc. cbn [app]. repeat split; try assumption.
+        rewrite filter_app, Hq. cbn [filter]. rewrite Ea. reflexivity.
+      * destruct Hd as [Hd Hlast]. split; [|exact Hlast].
+        rewrite filter_app, Hd. cbn [filter]. rewrite Ea. reflexivity.
 Qed.
 
-Lemma compile_block_without_default ds r :
-  tp_last_dact (rr_dacts r) = Some DBlock -> tp_defaults_for ds (rr_phase r) = None ->
-  tp_intr_of (tp_compile_rule ds r) = None.
+Lemma parse_inv_fold l : forall done st, parse_inv done st ->
+  parse_inv (done ++ l) (fold_left tp_append_action l st).
 Proof.
-  intros H Hd. unfold tp_compile_rule. rewrite Hd, H. reflexivity.
+  induction l as [|a l IH]; intros done st H; cbn [fold_left]; [rewrite app_nil_r; exact H|].
+  replace (done ++ a :: l) with ((done ++ [a]) ++ l) by (rewrite <- app_assoc; reflexivity).
+  apply IH, parse_inv_step, H.
+Qed.
+
+Lemma parse_one_disruptive l :
+  dis_items (tp_parse_actions l) = match tp_last_dis l with Some d => [IDis d] | None => [] end /\
+  nondis_items (tp_parse_actions l) = nondis_items l.
+Proof.
+  assert (H0 : parse_inv [] ([], None)) by (unfold parse_inv; cbn; auto).
+  pose proof (parse_inv_fold l [] _ H0) as [Hn Hd]. cbn [app] in *. unfold tp_parse_actions.
+  split; [|exact Hn].
+  destruct (snd (fold_left tp_append_action l ([], None))) as [i|].
+  - destruct Hd as (pre & d & post & -> & _ & Hp & Hq & ->).
+    unfold dis_items in *. rewrite filter_app. cbn [filter tp_is_dis]. rewrite Hp, Hq. reflexivity.
+  - destruct Hd as [Hd ->]. exact Hd.
+Qed.
+
+Lemma first_dis_dis_items l :
+  tp_first_dis l = match dis_items l with IDis d :: _ => Some d | _ => None end.
+Proof.
+  unfold dis_items. induction l as [|a l IH]; cbn [tp_first_dis filter]; [reflexivity|].
+  destruct a; cbn [tp_is_dis]; try exact IH; reflexivity.
+Qed.
+
+(* the one disruptive action of a parsed list is the LAST one written, wherever the earlier ones stand *)
+Lemma last_disruptive_wins l : tp_first_dis (tp_parse_actions l) = tp_last_dis l.
+Proof.
+  rewrite first_dis_dis_items. destruct (parse_one_disruptive l) as [-> _].
+  destruct (tp_last_dis l); reflexivity.
+Qed.
+
+Lemma dis_items_filter g l : dis_items (filter g l) = filter g (dis_items l).
+Proof.
+  unfold dis_items. induction l as [|a l IH]; cbn [filter]; [reflexivity|].
+  destruct (g a) eqn:Eg, (tp_is_dis a) eqn:Ed; cbn [filter]; rewrite ?Eg, ?Ed, IH; reflexivity.
+Qed.
+
+Lemma existsb_dis f l : existsb (fun a => tp_is_dis a && f a) l = existsb f (dis_items l).
+Proof.
+  unfold dis_items. induction l as [|a l IH]; cbn [existsb filter]; [reflexivity|].
+  destruct (tp_is_dis a); cbn [andb orb existsb]; rewrite IH; reflexivity.
+Qed.
+
+(* mergeActions on parsed lists: a non-block disruptive action of the rule is kept, block / nothing
+   inherits the disruptive action of the SecDefaultAction *)
+Lemma merge_disruptive own defs :
+  tp_first_dis (tp_merge (tp_parse_actions own) (tp_parse_actions defs)) =
+  match tp_last_dis own with
+  | Some d => if tp_is_block_item (IDis d) then tp_last_dis defs else Some d
+  | None => tp_last_dis defs
+  end.
+Proof.
+  rewrite first_dis_dis_items. unfold tp_merge.
+  unfold dis_items at 1. rewrite !filter_app. fold (dis_items (filter (fun a => negb (tp_is_dis a)) (tp_parse_actions defs))).
+  rewrite dis_items_filter.
+  assert (Z : filter (fun a => negb (tp_is_dis a)) (dis_items (tp_parse_actions defs)) = []).
+  { unfold dis_items. induction (tp_parse_actions defs) as [|a l IH]; cbn [filter]; [reflexivity|].
+    destruct (tp_is_dis a) eqn:E; cbn [filter]; rewrite ?E; cbn [negb]; exact IH. }
+  rewrite Z. cbn [app].
+  fold (dis_items (filter (fun a => negb (tp_is_block_item a)) (tp_parse_actions own))).
+  rewrite dis_items_filter, existsb_dis.
+  destruct (parse_one_disruptive own) as [-> _].
+  assert (L : tp_last_dis (tp_parse_actions defs) = tp_last_dis defs).
+  { pose proof (last_disruptive_wins defs) as W. rewrite first_dis_dis_items in W.
+    destruct (parse_one_disruptive defs) as [Hd _].
+    unfold tp_last_dis at 1. clear W.
+    assert (G : forall l, tp_last_some tp_dis_of l None =
+                          tp_last_some tp_dis_of (dis_items l) None).
+    { intro l. assert (G' : forall acc, tp_last_some tp_dis_of l acc = tp_last_some tp_dis_of (dis_items l) acc).
+      { unfold dis_items. induction l as [|a l IH]; intro acc; cbn [filter tp_last_some]; [reflexivity|].
+        destruct a; cbn [tp_is_dis tp_dis_of tp_last_some]; apply IH. }
+      apply G'. }
+    rewrite G, Hd. destruct (tp_last_dis defs); reflexivity. }
+  rewrite L.
+  destruct (tp_last_dis own) as [d|]; cbn [filter existsb].
+  - destruct d; cbn [tp_is_block_item negb filter existsb orb app]; try reflexivity.
+    destruct (tp_last_dis defs); reflexivity.
+  - cbn [app]. destruct (tp_last_dis defs); reflexivity.
+Qed.
+
+Lemma compile_act_no_default ds r :
+  rr_mark r = None -> tp_defaults_for ds (rr_phase r) = None ->
+  r_act (tp_compile_rule ds r) = tp_last_dis (rr_acts r).
+Proof.
+  intros Hm Hd. unfold tp_compile_rule, tp_compiled_actions. rewrite Hm, Hd. cbn [r_act].
+  apply last_disruptive_wins.
+Qed.
+
+Lemma compile_act_with_default ds r d :
+  rr_mark r = None -> tp_defaults_for ds (rr_phase r) = Some d ->
+  r_act (tp_compile_rule ds r) =
+  match tp_last_dis (rr_acts r) with
+  | Some a => if tp_is_block_item (IDis a) then tp_last_dis (df_acts d) else Some a
+  | None => tp_last_dis (df_acts d)
+  end.
+Proof.
+  intros Hm Hd. unfold tp_compile_rule, tp_compiled_actions. rewrite Hm, Hd. cbn [r_act].
+  apply merge_disruptive.
 Qed.
 
 (* ---------------------------------------------------------------------------------- *)
@@ -936,16 +1096,17 @@ Qed.
 
 (* deny 401 as 2nd rule of phase 1 (needs the request header), block under a drop default in
    phase 3, redirect 308 in phase 4, deny in phase 5; counters around them *)
+Definition rl := mkRaw None.
 Definition ex_waf (e : tp_mode) : tp_waf :=
-  mkWaf e [mkDef 3 [DDrop] (Some 418)]
-    [ mkRaw 10 1 CTrue None None [DPass] None;
-      mkRaw 11 1 CReqHdr None None [DDeny] (Some 401);
-      mkRaw 12 1 CTrue None None [DPass] None;
-      mkRaw 20 2 CUri (Some CConn) None [DPass; DDeny] None;
-      mkRaw 30 3 CRespHdr None None [DDeny; DBlock] None;
-      mkRaw 40 4 CTrue None None [DRedirect [47; 120]] (Some 308);
-      mkRaw 50 5 CTrue None None [DDeny] None;
-      mkRaw 51 5 CTrue None None [DPass] None ]
+  mkWaf e [mkDef 3 [IDis DDrop; IStatus 418]]
+    [ rl 10 1 CTrue None [IDis DPass];
+      rl 11 1 CReqHdr None [IDis DDeny; IStatus 401];
+      rl 12 1 CTrue None [IDis DPass];
+      rl 20 2 CUri (Some CConn) [IDis DPass; IInert; IDis DDeny];
+      rl 30 3 CRespHdr None [IDis DDeny; IInert; IDis DBlock];
+      rl 40 4 CTrue None [IDis (DRedirect [47; 120]); IStatus 308];
+      rl 50 5 CTrue None [IDis DDeny];
+      rl 51 5 CTrue None [IDis DPass] ]
     true 8%Z LReject true 8%Z LPartial.
 
 (* repeated, skipped and out-of-order calls; interruption reached in phase 1 *)
@@ -996,7 +1157,7 @@ Proof. vm_compute. auto. Qed.
 
 (* the guard of the partial DetectionOnly theorem is satisfiable together with a ctl switch *)
 Example ex_partial_guard :
-  let w := mkWaf MOn [] [mkRaw 1 1 CTrue None (Some MDet) [DPass] None; mkRaw 2 2 CTrue None None [DDeny] None]
+  let w := mkWaf MOn [] [rl 1 1 CTrue None [ICtl MDet; IDis DPass]; rl 2 2 CTrue None [IDis DDeny]]
                  true 8%Z LPartial true 8%Z LPartial in
   let c := tp_compile w in
   tp_no_ctl_on c = true /\ tp_limits_partial c = true /\
@@ -1064,44 +1225,70 @@ Qed.
 (* one Eval: the evaluated rules are a prefix of the phase's rules in configuration order *)
 (* ---------------------------------------------------------------------------------- *)
 
-Definition tp_phase_rules (c : tp_cfg) (p : N) : list tp_rule :=
-  filter (fun r => r_phase r =? p) (c_rules c).
+(* the rules RuleGroup.Eval may evaluate in phase p: not a marker, of phase p (or of phase 0) *)
+Definition tp_cand (p : N) (r : tp_rule) : bool :=
+  negb (is_some (r_mark r)) && ((r_phase r =? 0) || (r_phase r =? p)).
+
+Definition tp_phase_rules (c : tp_cfg) (p : N) : list tp_rule := filter (tp_cand p) (c_rules c).
 
 Definition is_rule_event (p : N) (e : tp_event) (r : tp_rule) : Prop := exists st, e = EvRule p r st.
 
-Lemma eval_loop_prefix p rs : forall s,
-  exists evs, st_trace (tp_eval_loop p rs s) = st_trace s ++ evs /\
-    Forall2 (is_rule_event p) evs (firstn (length evs) (filter (fun r => r_phase r =? p) rs)).
+(* l1 is a subsequence of l2 (same order, elements may be left out) *)
+Inductive subseq {A} : list A -> list A -> Prop :=
+  | sub_nil l : subseq [] l
+  | sub_take x l1 l2 : subseq l1 l2 -> subseq (x :: l1) (x :: l2)
+  | sub_skip x l1 l2 : subseq l1 l2 -> subseq l1 (x :: l2).
+
+Lemma subseq_filter_cons {A} (f : A -> bool) l r rs : subseq l (filter f rs) -> subseq l (filter f (r :: rs)).
+Proof. intro H. cbn [filter]. destruct (f r); [apply sub_skip, H | exact H]. Qed.
+
+Lemma subseq_in {A} (l1 l2 : list A) x : subseq l1 l2 -> In x l1 -> In x l2.
 Proof.
-  induction rs as [|r rs IH]; intro s; cbn [tp_eval_loop filter].
-  { exists []. rewrite app_nil_r. split; [reflexivity | constructor]. }
-  assert (Stop : exists evs, st_trace s = st_trace s ++ evs /\
-      Forall2 (is_rule_event p) evs
-        (firstn (length evs) (if r_phase r =? p then r :: filter (fun r => r_phase r =? p) rs
-                              else filter (fun r => r_phase r =? p) rs))).
-  { exists []. rewrite app_nil_r. split; [reflexivity | constructor]. }
+  induction 1 as [l|y l1 l2 _ IH|y l1 l2 _ IH]; intro H; [contradiction | |right; apply IH, H].
+  destruct H as [->|H]; [left; reflexivity | right; apply IH, H].
+Qed.
+
+Lemma eval_loop_subseq p rs : forall s,
+  exists evs l, st_trace (tp_eval_loop p rs s) = st_trace s ++ evs /\
+    Forall2 (is_rule_event p) evs l /\ subseq l (filter (tp_cand p) rs).
+Proof.
+  induction rs as [|r rs IH]; intro s; cbn [tp_eval_loop].
+  { exists [], []. rewrite app_nil_r. repeat split; constructor. }
+  assert (Stop : exists evs l, st_trace s = st_trace s ++ evs /\
+      Forall2 (is_rule_event p) evs l /\ subseq l (filter (tp_cand p) (r :: rs))).
+  { exists [], []. rewrite app_nil_r. repeat split; constructor. }
+  assert (Cont : forall s', st_trace s' = st_trace s ->
+      exists evs l, st_trace (tp_eval_loop p rs s') = st_trace s ++ evs /\
+      Forall2 (is_rule_event p) evs l /\ subseq l (filter (tp_cand p) (r :: rs))).
+  { intros s' Ht. destruct (IH s') as (evs & l & A & B & C). exists evs, l.
+    rewrite A, Ht. repeat split; [exact B | apply subseq_filter_cons, C]. }
   destruct (is_some (st_intr s) && negb (p =? 5)); [exact Stop|].
-  destruct (r_phase r =? p) eqn:Eph; cbn [negb]; [|apply IH].
-  assert (Go : exists evs, st_trace (tp_eval_loop p rs (tp_eval_rule p r s)) = st_trace s ++ evs /\
-      Forall2 (is_rule_event p) evs (firstn (length evs) (r :: filter (fun r => r_phase r =? p) rs))).
-  { destruct (IH (tp_eval_rule p r s)) as (evs & Ht & Hf).
+  destruct ((r_phase r =? 0) || (r_phase r =? p)) eqn:Eph; cbn [negb]; [|apply Cont; reflexivity].
+  destruct (st_skipafter s); [destruct (tp_mark_eqb (r_mark r) n); apply Cont; reflexivity|].
+  destruct (0 <? st_skip s); [apply Cont; reflexivity|].
+  assert (Go : exists evs l,
+      st_trace (tp_eval_loop p rs (if is_some (r_mark r) then s else tp_eval_rule p r s)) = st_trace s ++ evs /\
+      Forall2 (is_rule_event p) evs l /\ subseq l (filter (tp_cand p) (r :: rs))).
+  { destruct (r_mark r) eqn:Em; cbn [is_some]; [apply Cont; reflexivity|].
+    destruct (IH (tp_eval_rule p r s)) as (evs & l & A & B & C).
     destruct (eval_rule_core p r s) as (Ht1 & _).
     destruct (rule_event_shape p r s) as [st Est].
-    exists (tp_rule_event p r s :: evs). split.
-    - rewrite Ht, Ht1, <- app_assoc. reflexivity.
-    - cbn [length firstn]. constructor; [exists st; exact Est | exact Hf]. }
+    exists (tp_rule_event p r s :: evs), (r :: l). split; [|split].
+    - rewrite A, Ht1, <- app_assoc. reflexivity.
+    - constructor; [exists st; exact Est | exact B].
+    - cbn [filter]. unfold tp_cand at 1. rewrite Em, Eph. cbn [is_some negb andb]. apply sub_take, C. }
   destruct (st_allow s) as [[]|]; try exact Go; try exact Stop.
   - destruct (p =? 1); [exact Stop|]. destruct (p =? 2); [exact Stop | exact Go].
   - destruct (p =? 5); [exact Go | exact Stop].
 Qed.
 
-Lemma eval_phase_prefix_holds c p s :
-  exists evs, st_trace (tp_eval_phase c p s) = st_trace s ++ EvPhase p :: evs /\
-    Forall2 (is_rule_event p) evs (firstn (length evs) (tp_phase_rules c p)).
+Lemma eval_phase_in_order_holds c p s :
+  exists evs l, st_trace (tp_eval_phase c p s) = st_trace s ++ EvPhase p :: evs /\
+    Forall2 (is_rule_event p) evs l /\ subseq l (tp_phase_rules c p).
 Proof.
   unfold tp_eval_phase.
-  destruct (eval_loop_prefix p (c_rules c) (add_event (set_last s p) (EvPhase p))) as (evs & Ht & Hf).
-  exists evs. split; [|exact Hf].
+  destruct (eval_loop_subseq p (c_rules c) (add_event (set_last s p) (EvPhase p))) as (evs & l & Ht & Hf & Hs).
+  exists evs, l. split; [|split; assumption].
   destruct (st_allow _) as [[]|]; sx; rewrite Ht; sx; rewrite <- app_assoc; reflexivity.
 Qed.
 
@@ -1188,14 +1375,11 @@ Qed.
 
 Lemma ord_eval_loop p rs : forall s, st_last s = p -> Ord s -> Ord (tp_eval_loop p rs s).
 Proof.
-  induction rs as [|r rs IH]; intros s Hl H; cbn [tp_eval_loop]; [exact H|].
-  destruct (is_some (st_intr s) && negb (p =? 5)); [exact H|].
-  destruct (negb (r_phase r =? p)); [apply IH; assumption|].
-  assert (Go : Ord (tp_eval_loop p rs (tp_eval_rule p r s))).
-  { apply IH; [rewrite eval_rule_last; exact Hl | apply ord_eval_rule; assumption]. }
-  destruct (st_allow s) as [[]|]; try exact Go; try exact H.
-  - destruct (p =? 1); [exact H|]. destruct (p =? 2); [exact H | exact Go].
-  - destruct (p =? 5); [exact Go | exact H].
+  intros s Hl H.
+  apply (eval_loop_pres (fun s' => st_last s' = p /\ Ord s') p rs); try (split; assumption).
+  - intros s0 k m H0. exact H0.
+  - intros s0 a H0. exact H0.
+  - intros r s0 _ _ _ _ [L0 H0]. split; [rewrite eval_rule_last; exact L0 | apply ord_eval_rule; assumption].
 Qed.
 
 Lemma ord_eval_phase c p s : eval_pre s p -> Ord s -> Ord (tp_eval_phase c p s).
@@ -1236,21 +1420,22 @@ Qed.
 (* ---------------------------------------------------------------------------------- *)
 
 Definition rule_events_ok (c : tp_cfg) (t : list tp_event) : Prop :=
-  Forall (fun e => match e with EvRule p r _ => In r (c_rules c) /\ r_phase r = p | _ => True end) t.
-
-Lemma prefix_in {A} (l : list A) n x : In x (firstn n l) -> In x l.
-Proof. revert n. induction l as [|y l IH]; intros [|n]; cbn; try tauto. intros [->|H]; [auto | right; apply (IH n H)]. Qed.
+  Forall (fun e => match e with
+                   | EvRule p r _ => In r (c_rules c) /\ r_mark r = None /\ (r_phase r = p \/ r_phase r = 0)
+                   | _ => True end) t.
 
 Lemma rules_in_config_eval_phase c p s :
   rule_events_ok c (st_trace s) -> rule_events_ok c (st_trace (tp_eval_phase c p s)).
 Proof.
-  intro H. destruct (eval_phase_prefix_holds c p s) as (evs & Ht & Hf). rewrite Ht.
+  intro H. destruct (eval_phase_in_order_holds c p s) as (evs & l & Ht & Hf & Hs). rewrite Ht.
   unfold rule_events_ok. apply Forall_app. split; [exact H|]. constructor; [exact I|].
-  remember (firstn (length evs) (tp_phase_rules c p)) as l eqn:El.
-  assert (Hl : forall r, In r l -> In r (c_rules c) /\ r_phase r = p).
-  { intros r Hr. rewrite El in Hr. apply prefix_in in Hr. unfold tp_phase_rules in Hr.
-    apply filter_In in Hr as [A B]. split; [exact A | apply N.eqb_eq, B]. }
-  clear El Ht. revert Hl. induction Hf as [|e r evs' l' HR _ IH]; intro Hl; constructor.
+  assert (Hl : forall r, In r l -> In r (c_rules c) /\ r_mark r = None /\ (r_phase r = p \/ r_phase r = 0)).
+  { intros r Hr. apply (subseq_in _ _ _ Hs) in Hr. unfold tp_phase_rules in Hr.
+    apply filter_In in Hr as [A B]. split; [exact A|]. unfold tp_cand in B.
+    apply andb_true_iff in B as [B1 B2]. split.
+    - destruct (r_mark r); [discriminate | reflexivity].
+    - apply orb_true_iff in B2 as [E|E]; apply N.eqb_eq in E; auto. }
+  clear Ht Hs. revert Hl. induction Hf as [|e r evs' l' HR _ IH]; intro Hl; constructor.
   - destruct HR as [st ->]. apply Hl. left. reflexivity.
   - apply IH. intros r' Hr'. apply Hl. right. exact Hr'.
 Qed.
@@ -1292,10 +1477,10 @@ Proof.
   unfold tp_count_phase. induction 1 as [|e r evs l [st ->] _ IH]; [reflexivity|]. cbn [filter]. exact IH.
 Qed.
 
-Lemma id_count_firstn id l n : (id_count id (firstn n l) <= id_count id l)%nat.
+Lemma id_count_subseq id l1 l2 : subseq l1 l2 -> (id_count id l1 <= id_count id l2)%nat.
 Proof.
-  unfold id_count. revert n. induction l as [|a l IH]; intros [|n]; cbn [firstn filter length]; try lia.
-  specialize (IH n). destruct (r_id a =? id); cbn [length]; lia.
+  unfold id_count. induction 1 as [l|x l1 l2 _ IH|x l1 l2 _ IH]; cbn [filter length]; try lia;
+    destruct (r_id x =? id); cbn [length]; lia.
 Qed.
 
 Lemma id_count_filter id (g : tp_rule -> bool) l : (id_count id (filter g l) <= id_count id l)%nat.
@@ -1339,35 +1524,49 @@ Proof.
   - apply IH; assumption.
 Qed.
 
+(* the entries that are rules (SecMarker entries have no id of their own) *)
+Definition tp_real_rules (c : tp_cfg) : list tp_rule :=
+  filter (fun r => negb (is_some (r_mark r))) (c_rules c).
+
+Lemma phase_rules_real c p :
+  tp_phase_rules c p = filter (fun r => (r_phase r =? 0) || (r_phase r =? p)) (tp_real_rules c).
+Proof.
+  unfold tp_phase_rules, tp_real_rules, tp_cand. induction (c_rules c) as [|r l IH]; cbn [filter]; [reflexivity|].
+  destruct (negb (is_some (r_mark r))); cbn [andb filter]; [|exact IH].
+  destruct ((r_phase r =? 0) || (r_phase r =? p)); rewrite IH; reflexivity.
+Qed.
+
 Section Once.
 Variable c : tp_cfg.
-Hypothesis Hnd : NoDup (map r_id (c_rules c)).
+Hypothesis Hnd : NoDup (map r_id (tp_real_rules c)).
 
 Definition Once (s : tp_state) : Prop :=
-  forall r, In r (c_rules c) ->
+  forall r, In r (tp_real_rules c) -> 1 <= r_phase r ->
   (tp_count_rule (r_id r) (st_trace s) <= tp_count_phase (r_phase r) (st_trace s))%nat.
 
 Lemma once_eval_phase p s : Once s -> Once (tp_eval_phase c p s).
 Proof.
-  intros H r Hr. destruct (eval_phase_prefix_holds c p s) as (evs & Ht & Hf). rewrite Ht.
+  intros H r Hr Hph. destruct (eval_phase_in_order_holds c p s) as (evs & l & Ht & Hf & Hs). rewrite Ht.
   change (st_trace s ++ EvPhase p :: evs) with (st_trace s ++ [EvPhase p] ++ evs).
   rewrite !count_rule_app, !count_phase_app.
   rewrite (count_rule_block p _ _ _ Hf), (count_phase_block p _ _ _ Hf).
-  specialize (H r Hr).
+  specialize (H r Hr Hph).
   assert (A : tp_count_rule (r_id r) [EvPhase p] = 0%nat) by reflexivity. rewrite A.
   assert (B : tp_count_phase (r_phase r) [EvPhase p] = if p =? r_phase r then 1%nat else 0%nat).
   { unfold tp_count_phase. cbn [filter]. destruct (p =? r_phase r); reflexivity. }
   rewrite B.
-  pose proof (id_count_firstn (r_id r) (tp_phase_rules c p) (length evs)) as C1.
-  pose proof (id_count_filter (r_id r) (fun r => r_phase r =? p) (c_rules c)) as C2.
-  pose proof (id_count_nodup (r_id r) (c_rules c) Hnd) as C3.
-  fold (tp_phase_rules c p) in C2.
+  pose proof (id_count_subseq (r_id r) _ _ Hs) as C1.
+  rewrite phase_rules_real in C1.
+  pose proof (id_count_filter (r_id r) (fun r => (r_phase r =? 0) || (r_phase r =? p)) (tp_real_rules c)) as C2.
+  pose proof (id_count_nodup (r_id r) (tp_real_rules c) Hnd) as C3.
   destruct (N.eqb_spec p (r_phase r)) as [E|E]; [lia|].
-  assert (Z : id_count (r_id r) (tp_phase_rules c p) = 0%nat).
-  { destruct (id_count (r_id r) (tp_phase_rules c p)) eqn:K; [reflexivity|]. exfalso.
-    destruct (id_count_pos_in (r_id r) (tp_phase_rules c p)) as (r' & Hin & Hid); [lia|].
-    unfold tp_phase_rules in Hin. apply filter_In in Hin as [Hin Hph]. apply N.eqb_eq in Hph.
-    assert (r' = r) by (apply (nodup_map_inj (c_rules c)); assumption). subst r'. congruence. }
+  assert (Z : id_count (r_id r) (filter (fun r => (r_phase r =? 0) || (r_phase r =? p)) (tp_real_rules c)) = 0%nat).
+  { match goal with |- ?x = 0%nat => destruct x eqn:K end; [reflexivity|]. exfalso.
+    destruct (id_count_pos_in (r_id r) (filter (fun r => (r_phase r =? 0) || (r_phase r =? p)) (tp_real_rules c)))
+      as (r' & Hin & Hid); [lia|].
+    apply filter_In in Hin as [Hin Hph']. 
+    assert (r' = r) by (apply (nodup_map_inj (tp_real_rules c)); assumption). subst r'.
+    apply orb_true_iff in Hph' as [E'|E']; apply N.eqb_eq in E'; [lia | congruence]. }
   lia.
 Qed.
 
@@ -1375,17 +1574,157 @@ Lemma once_run ks : Once (tp_run c ks).
 Proof.
   unfold tp_run. apply (run_from_pres Once c).
   - intros s k H. apply (step_pres_gen Once c); auto.
-    + intros s0 st H0 r Hr. specialize (H0 r Hr). unfold tp_limit_intr. sx.
+    + intros s0 st H0 r Hr Hph. specialize (H0 r Hr Hph). unfold tp_limit_intr. sx.
       destruct (st_intr s0); sx; rewrite count_rule_app, count_phase_app; cbn; lia.
     + intros s0 p H0 _. apply once_eval_phase, H0.
-  - intros r _. cbn. lia.
+  - intros r _ _. cbn. lia.
 Qed.
 
 Lemma rule_at_most_once_holds ks r :
-  In r (c_rules c) -> 1 <= r_phase r <= 4 ->
+  In r (c_rules c) -> r_mark r = None -> 1 <= r_phase r <= 4 ->
   (tp_count_rule (r_id r) (st_trace (tp_run c ks)) <= 1)%nat.
 Proof.
-  intros Hr Hp. pose proof (once_run ks r Hr) as A.
+  intros Hr Hm Hp.
+  assert (Hr' : In r (tp_real_rules c)).
+  { unfold tp_real_rules. apply filter_In. split; [exact Hr | rewrite Hm; reflexivity]. }
+  pose proof (once_run ks r Hr' (proj1 Hp)) as A.
   pose proof (phase_at_most_once_holds c ks (r_phase r) Hp). lia.
 Qed.
 End Once.
+
+(* ---------------------------------------------------------------------------------- *)
+(* flow actions work only within their phase; the logging phase evaluates ALL its rules *)
+(* ---------------------------------------------------------------------------------- *)
+
+(* tx.Skip, tx.SkipAfter and allow:phase are at rest between calls *)
+Definition Flow (s : tp_state) : Prop :=
+  st_skip s = 0 /\ st_skipafter s = None /\ st_allow s <> Some SPhase.
+
+Lemma flow_run c ks : Flow (tp_run c ks).
+Proof.
+  unfold tp_run. apply (run_from_pres Flow c).
+  - intros s k H. apply (step_pres_gen Flow c); auto.
+    + intros s0 st H0. unfold tp_limit_intr, Flow in *. sx. destruct (st_intr s0); sx; exact H0.
+    + intros s0 p _ _. apply eval_phase_flow.
+  - unfold Flow. cbn. repeat split; discriminate.
+Qed.
+
+(* a rule without skip / skipAfter / allow:phase *)
+Definition tp_flowfree (r : tp_rule) : bool :=
+  (r_skip r =? 0) && negb (is_some (r_skipafter r)) &&
+  match r_act r with Some (DAllow SPhase) => false | _ => true end.
+
+(* the logging-phase rules carry no skip / skipAfter / allow:phase *)
+Definition tp_log_plain (c : tp_cfg) : bool :=
+  forallb (fun r => negb (tp_cand 5 r) || tp_flowfree r) (c_rules c).
+
+Lemma eval_rule_flowfree p r s :
+  tp_flowfree r = true -> Flow s -> Flow (tp_eval_rule p r s).
+Proof.
+  unfold tp_flowfree, Flow. intros Hf (Hk & Hm & Ha).
+  apply andb_true_iff in Hf as [Hf Hact]. apply andb_true_iff in Hf as [Hsk Hsa]. apply N.eqb_eq in Hsk.
+  unfold tp_eval_rule. destruct (tp_holds s (r_cond r)); [|sx; auto].
+  destruct (r_ctl r) as [m|];
+  match goal with |- context [match r_chain r with Some c => tp_holds ?s1 c | None => true end] =>
+    destruct (match r_chain r with Some c => tp_holds s1 c | None => true end) end; sx; auto;
+  unfold tp_exec_flow, tp_exec_dact, tp_allow, tp_interrupt; rewrite Hsk;
+  (destruct (r_skipafter r); [discriminate|]); cbn [N.ltb N.compare]; sx;
+  destruct (r_act r) as [[| | | | |[]]|] eqn:Ea; try discriminate; unfold tp_intr_of; rewrite ?Ea; sx;
+  try destruct m; sx; try destruct (st_engine s); sx; try destruct (st_intr s); try destruct (st_dintr s); sx;
+  repeat split; auto; discriminate.
+Qed.
+
+Lemma eval_loop_logging_all rs : forall s,
+  forallb (fun r => negb (tp_cand 5 r) || tp_flowfree r) rs = true -> Flow s ->
+  exists evs, st_trace (tp_eval_loop 5 rs s) = st_trace s ++ evs /\
+    Forall2 (is_rule_event 5) evs (filter (tp_cand 5) rs).
+Proof.
+  induction rs as [|r rs IH]; intros s Hrs Hf; cbn [tp_eval_loop filter].
+  { exists []. rewrite app_nil_r. split; constructor. }
+  cbn [forallb] in Hrs. apply andb_true_iff in Hrs as [Hr Hrs].
+  change (5 =? 5) with true. cbn [negb]. rewrite andb_false_r.
+  destruct Hf as (Hk & Hm & Ha).
+  assert (Ec : tp_cand 5 r = negb (is_some (r_mark r)) && ((r_phase r =? 0) || (r_phase r =? 5))) by reflexivity.
+  rewrite Ec. destruct ((r_phase r =? 0) || (r_phase r =? 5)) eqn:Eph; cbn [negb].
+  2:{ rewrite andb_false_r. apply IH; [exact Hrs | repeat split; assumption]. }
+  rewrite Hm, Hk. cbn [N.ltb N.compare]. rewrite andb_true_r.
+  assert (Go : exists evs,
+     st_trace (tp_eval_loop 5 rs (if is_some (r_mark r) then s else tp_eval_rule 5 r s)) = st_trace s ++ evs /\
+     Forall2 (is_rule_event 5) evs
+       (if negb (is_some (r_mark r)) then r :: filter (tp_cand 5) rs else filter (tp_cand 5) rs)).
+  { destruct (r_mark r) eqn:Em; cbn [is_some negb].
+    - apply IH; [exact Hrs | repeat split; assumption].
+    - assert (Hff : tp_flowfree r = true).
+      { rewrite Ec in Hr. exact Hr. }
+      destruct (IH (tp_eval_rule 5 r s) Hrs) as (evs & A & B).
+      { apply eval_rule_flowfree; [exact Hff | repeat split; assumption]. }
+      destruct (eval_rule_core 5 r s) as (Ht1 & _).
+      destruct (rule_event_shape 5 r s) as [st Est].
+      exists (tp_rule_event 5 r s :: evs). split.
+      + rewrite A, Ht1, <- app_assoc. reflexivity.
+      + constructor; [exists st; exact Est | exact B]. }
+  destruct (st_allow s) as [[]|]; try exact Go. contradiction Ha. reflexivity.
+Qed.
+
+(* ProcessLogging in any reachable state (interrupted or not, whatever skip / skipAfter / allow the
+   earlier phases executed): exactly the logging-phase rules are evaluated, all of them, in order *)
+Lemma logging_runs_all_holds c ks :
+  tp_log_plain c = true -> is_off (tp_run c ks) = false ->
+  exists evs, st_trace (tp_log c (tp_run c ks)) = st_trace (tp_run c ks) ++ EvPhase 5 :: evs /\
+    Forall2 (is_rule_event 5) evs (tp_phase_rules c 5).
+Proof.
+  intros Hp Hoff. unfold tp_log. rewrite Hoff. unfold tp_eval_phase.
+  set (s := tp_run c ks). pose proof (flow_run c ks) as Hf. fold s in Hf.
+  destruct (eval_loop_logging_all (c_rules c) (add_event (set_last s 5) (EvPhase 5)) Hp) as (evs & A & B).
+  { unfold Flow in *. sx. exact Hf. }
+  exists evs. split; [|exact B].
+  destruct (st_allow _) as [[]|]; sx; rewrite A; sx; rewrite <- app_assoc; reflexivity.
+Qed.
+
+(* "exactly the phase-5 rules a fresh state would": the flow state ProcessLogging starts from is the
+   one of a fresh transaction *)
+Lemma logging_as_fresh_holds c ks :
+  tp_log c (tp_run c ks) = tp_log c (set_flow (tp_run c ks) 0 None).
+Proof.
+  destruct (flow_run c ks) as (A & B & _). f_equal.
+  destruct (tp_run c ks). cbn in *. subst. reflexivity.
+Qed.
+
+(* ---- non-vacuity for the two clauses above ---- *)
+
+(* "deny,log,pass" passes; "deny,log,status:307,redirect" redirects with 307 *)
+Example ex_action_lists :
+  let w := mkWaf MOn []
+     [ rl 1 1 CTrue None [IInert; IDis DDeny; IInert; IDis DPass];
+       rl 2 1 CTrue None [IDis DDeny; IInert; IStatus 307; IDis (DRedirect [47; 120])] ]
+     false 8%Z LReject false 8%Z LPartial in
+  let s := tp_run (tp_compile w) [KPRH] in
+  st_intr s = Some (mkIntr 2 KRedirect 307 [47; 120]) /\ tp_matched (st_trace s) = [(1, true); (2, true)].
+Proof. vm_compute. auto. Qed.
+
+(* the interrupting rule also carries skipAfter:M1 / skip:2: every logging rule still runs *)
+Example ex_flow_after_interrupt :
+  let w := mkWaf MOn []
+     [ rl 10 1 CTrue None [IDis DDeny; IStatus 403; ISkipAfter 1];
+       rl 11 1 CTrue None [IDis DDeny; IStatus 401];
+       rl 50 5 CTrue None [IDis DPass];
+       mkRaw (Some 1) 0 0 CTrue None [];
+       rl 51 5 CTrue None [IDis DPass] ]
+     false 8%Z LReject false 8%Z LPartial in
+  let c := tp_compile w in
+  let s := tp_run c [KPRH; KPRB; KPRespH; KLog] in
+  tp_log_plain c = true /\ st_intr s = Some (mkIntr 10 KDeny 403 []) /\
+  tp_matched (st_trace s) = [(10, true); (50, true); (51, true)] /\
+  st_skipafter (tp_run c [KPRH]) = None.
+Proof. vm_compute. auto 10. Qed.
+
+(* skip:1 without interruption does skip the next rule of the phase (markers count) *)
+Example ex_skip_counts :
+  let w := mkWaf MOn []
+     [ rl 1 1 CTrue None [IDis DPass; ISkip 2];
+       mkRaw (Some 7) 0 0 CTrue None [];
+       rl 2 1 CTrue None [IDis DDeny];
+       rl 3 1 CTrue None [IDis DDrop; IStatus 500] ]
+     false 8%Z LReject false 8%Z LPartial in
+  st_intr (tp_run (tp_compile w) [KPRH]) = Some (mkIntr 3 KDrop 500 []).
+Proof. vm_compute. auto. Qed.
